@@ -47,7 +47,9 @@ def gen_plan(rng, index, tier):
         bp.update({"geom": "cartesian", "symmetry": rng.choice(["full", "quarter reflective through center assembly"])})
     cfg = {"reactor": "gen", "blueprint": bp, "settings": {"nCycles": 1, "burnSteps": 1}, "actors": [], "ngeneric": rng.randint(4, 9), "rejected": rng.random() < 0.15}
     steps = []
-    kinds = ["g_add", "g_add", "g_insert", "g_remove", "g_removeAll", "g_setChildren", "a_remove", "a_add", "a_insert", "a_reorder", "a_sort", "a_removeAll", "a_setChildren", "b_remove", "b_add", "b_replace", "copy", "pickle", "detach_copy"]
+    # (tracking into the grid-less default pool of a blueprint without a pool system is a recorded C14 finding)
+    cfg["settings"]["trackAssems"] = bool(bp.get("sfp")) and rng.random() < 0.7
+    kinds = ["c_remove", "g_add", "g_add", "g_insert", "g_remove", "g_removeAll", "g_setChildren", "a_remove", "a_add", "a_insert", "a_reorder", "a_sort", "a_removeAll", "a_setChildren", "b_remove", "b_add", "b_replace", "copy", "pickle", "detach_copy"]
     if cfg["rejected"]:
         kinds += ["x_remove_nonchild", "x_add_present"]
     for _ in range(rng.randint(10, 70)):
@@ -428,6 +430,21 @@ class Universe:
             b = self.origin.pop(c)
             O[b].add(O[c])
             self.m_attach(b, c)
+            return True
+        if op == "c_remove":
+            # an assembly leaves the core: to the spent-fuel pool (tracked discharge) or out of the model
+            core = self.r.core
+            ch = self.h[id(core)]
+            if len(self.kids[ch]) < 2:
+                return False
+            a = self.pick(self.kids[ch], st["a"])
+            discharge = bool(st["b"] % 3)
+            sfp = self.r.excore.get("sfp") if hasattr(self.r, "excore") else None
+            core.removeAssembly(O[a], discharge=discharge)
+            self.m_detach(ch, a)
+            if discharge and core._trackAssems and sfp is not None and id(sfp) in self.h:
+                self.m_attach(self.h[id(sfp)], a)
+                self.probe("assemblies_discharged_to_pool")
             return True
         if op == "b_replace":
             # "replacing": a block takes over the design of another block (typically control-rod
